@@ -668,7 +668,7 @@ class Gen(object):
         w = rng.choice(['sin', 'cos', 'expsin', 'tansin', 'sqrt', 'log', 'recip', 'powr', 'erf', 'expit',
                         'expm1', 'log1p', 'tansin', 'divpos', 'sqrt', 'special', 'special'])
         if w == 'special':
-            w = rng.choice(['erfi', 'dawsn', 'gammaln', 'psi', 'logit', 'polygamma', 'hyperu', 'absolute'])
+            w = rng.choice(['erfi', 'dawsn', 'gammaln', 'psi', 'logit', 'polygamma', 'hyperu', 'absolute', 'prod'])
         if w in ('erfi', 'dawsn'):
             s = self.emit('un', [a], sh, 1.0, f=rng.choice(['sin', 'cos']))
             self.emit('un', [s], sh, 2.0, f=w)
@@ -678,6 +678,14 @@ class Gen(object):
             m = self.emit('mul', [s, {'c': 0.25}], sh, 0.25)
             u = self.emit('add', [m, {'c': 0.5}], sh, 0.75, pos=(0.25, 0.75))
             self.emit('un', [u], sh, 1.2, f='logit')
+            return True
+        if w == 'prod':
+            v = self.pick_reg(lambda q: len(q.sh) == 1 and q.sh[0] <= 4)
+            if v is None:
+                return False
+            s = self.emit('un', [v], self.regs[v].sh, 1.0, f=rng.choice(['sin', 'cos']))
+            pz = self.emit('add', [s, {'c': 1.5}], self.regs[v].sh, 2.5, pos=(0.5, 2.5))
+            self.emit('lin1', [pz], (), 40.0, f='prod', pos=(0.06, 40.0))
             return True
         if w in ('gammaln', 'psi', 'polygamma', 'hyperu', 'absolute'):
             s = self.emit('un', [a], sh, 1.0, f=rng.choice(['sin', 'cos']))
@@ -801,6 +809,22 @@ class Gen(object):
             r = rng.random()
             if r < 0.5 or not reads:
                 ix, sh = slot()
+                if rng.random() < 0.12:
+                    # a plain constant written into the traced buffer (buf[1] = 2.5)
+                    cst = const_scalar(rng) if (sh == () or rng.random() < 0.5) else const_array(rng, sh)
+                    live = [q for q in views if self.regs[q].kind == 'v']
+                    if live:
+                        if self.truth_only or rng.random() < 0.5:
+                            for q in live:
+                                self.regs[q].kind = 'dead'
+                        else:
+                            self.stale_views = True
+                    self.emit('setitem', [buf, cst], None, 0.0, t=True, p=True, kind='none', ix=enc_index(ix))
+                    self.regs[buf].used = True
+                    bmag[0] = max(bmag[0], 2.0)
+                    self.regs[buf].mag = bmag[0]
+                    reads.append(None)
+                    continue
                 v = value_for(sh)
                 if rng.random() < 0.3 and reads:
                     # read-modify-write: buf[ix] = buf[ix] * v + w
@@ -904,7 +928,9 @@ class Gen(object):
             k = self.regs[v].sh[0]
             self.emit('lin1', [v], (k, k), self.regs[v].mag, f='diag')
         elif f == 'symvec':
-            self.emit('lin1', [A], (n * (n + 1) // 2,), amag, f='symvec')
+            sv = self.emit('lin1', [A], (n * (n + 1) // 2,), amag, f='symvec')
+            if rng.random() < 0.5:
+                self.emit('lin1', [sv], (n, n), amag, f='vecsym')
         else:
             # tuple-valued: unpack (ends with a failing __getitem__ on a tracer node)
             if f == 'eigh':
